@@ -538,7 +538,7 @@ func runScenario(ctx *core.Ctx, bin string, idx int, sc scenario) {
 
 // Run is the C06 check.
 func Run(ctx *core.Ctx) {
-	ctx.Rule = "leader and follower are separate processes with a harness TCP proxy in between; the leader receives a generated write history (all write commands, hooks/channels with metas and EX, EVAL/EVALNA scripts, TTLs >= 1000 s, optionally > 512 KiB of values) with a monotone marker object; initial follower states: empty, a true prefix of the leader's log (below/above the 512 KiB checksum window), unrelated data (below/above), a diverged history of exactly the leader log's byte length; fault sequences from {follower restart, follower kill -9, connection dropped, connection cut at a PRNG byte offset of the stream, leader AOFSHRINK, follower SIGSTOP/SIGCONT, stream delivered in slices, leader restart}. Four fixed scenarios: 20000 objects, AOFSHRINK, caught-up follower, same-length in-place updates of one or four records in the middle of the log, AOFSHRINK again, re-synchronisation, then the updated objects are compared. Two more fixed scenarios: a follower pointed back and forth between two live leaders that keep writing after each switch; lifetimes of 2.5 s made permanent on the leader while the link is down (dropped) or stalled (bytes held back) and the first deadline passes on the follower (then a follower restart). Oracles: after the faults stop and the leader is quiescent the follower must report healthy and its API dump must equal the leader's within 25 s; a monitor polls HEALTHZ throughout and, whenever the follower claims healthy, requires its marker to be at least the last marker the leader acknowledged before the follower's latest (re)connect was accepted by the proxy. non-trivial = scenario with a non-empty initial state or >= 1 fault; distinct key = (initial state, fault sequence)"
+	ctx.Rule = "leader and follower are separate processes with a harness TCP proxy in between; the leader receives a generated write history (all write commands, hooks/channels with metas and EX, EVAL/EVALNA scripts, TTLs >= 1000 s, optionally > 512 KiB of values) with a monotone marker object; initial follower states: empty, a true prefix of the leader's log (below/above the 512 KiB checksum window), unrelated data (below/above), a diverged history of exactly the leader log's byte length; fault sequences from {follower restart, follower kill -9, connection dropped, connection cut at a PRNG byte offset of the stream, leader AOFSHRINK, follower SIGSTOP/SIGCONT, stream delivered in slices, leader restart}. Four fixed scenarios: 20000 objects, AOFSHRINK, caught-up follower, same-length in-place updates of one or four records in the middle of the log, AOFSHRINK again, re-synchronisation, then the updated objects are compared. Two more fixed scenarios: a follower pointed back and forth between two live leaders that keep writing after each switch; lifetimes of 2.5 s made permanent on the leader while the link is down (dropped) or stalled (bytes held back) and the first deadline passes on the follower (then a follower restart). A reconnect while the follower's last logged command carries `*n\r\n` inside a value. Oracles: after the faults stop and the leader is quiescent the follower must report healthy and its API dump must equal the leader's within 25 s; a monitor polls HEALTHZ throughout and, whenever the follower claims healthy, requires its marker to be at least the last marker the leader acknowledged before the follower's latest (re)connect was accepted by the proxy. non-trivial = scenario with a non-empty initial state or >= 1 fault; distinct key = (initial state, fault sequence)"
 	ctx.Assumptions = []string{"the (re)connect instant is taken from the proxy's accept time (start of the latest burst of connections)", "bounded progress: 25 s after the last fault"}
 	bin, err := srv.Build("plain")
 	if err != nil {
@@ -570,7 +570,8 @@ func Run(ctx *core.Ctx) {
 		scs = append(scs, scenario{initial: in, faults: fs, big: strings.HasSuffix(in, "big") || r.Intn(2) == 0})
 	}
 	var wg sync.WaitGroup
-	wg.Add(3)
+	wg.Add(4)
+	go func() { defer wg.Done(); runStarValue(ctx, bin) }()
 	go func() { defer wg.Done(); runSwitchLeader(ctx, bin) }()
 	go func() { defer wg.Done(); runTTLAcrossOutage(ctx, bin, true) }()
 	go func() { defer wg.Done(); runTTLAcrossOutage(ctx, bin, false) }()
